@@ -13,7 +13,7 @@
 //	<pkgs>      registered package names ("." = root)
 //	<nodes>     ids in AllTargets order; <adj> id:deps;… flattened DeclaredDependencies/ProvideFor
 //	<inputs>    id:path|path|…;…  the String() of AllSources()++AllData() of each target ("-" = none)
-//	<tools>     id:path|…;…  local file tools (the code under test never reads them; the reference does)
+//	<tools>     id:path|…;…  local file tools (AllTools() that are FileLabels)
 //
 // Output: ids of the reported labels in label order.
 package main
